@@ -5,6 +5,16 @@ import os
 ROOT = os.path.dirname(os.path.dirname(os.path.abspath(__file__)))
 
 CHECKS = {
+ "C12": dict(
+    text="Full for the configurations the property names. Theorems C12_base, C12_derived, C12_base_and_derived, C12_two_on_derived: for EVERY schedule (any length, including grants to blocked/finished threads) of one settling thread with one or two attaching threads on the promise and on the promise derived from it: no access to a core's state or continuation list without its mutex, no deadlock, no spurious error, and at the end every continuation has run exactly once. Proof: the finite reachable set at lock/state/list granularity is computed and checked inside Coq (vm_compute) and lifted to all schedules by the closure lemma reach_closed; C12_snapshot_refuted shows the pinned snapshot's order fails. Tied to /repo by replaying all 2^14 / 3^9 schedule prefixes on the real async.h through the PISTACHE_VERIF yield points.",
+    note="Closed under the global context; vm_compute over a finite state space (a few hundred states) is part of the proof. Sequentially consistent memory; callbacks do not re-enter their promise. Trusted: harness/h_promise_conc.cc, pv_sched.h, hook placement in async.h.",
+    technique="Coq proof by in-kernel exhaustive reachability (finite interleaving semantics + closure lemma) + schedule replay on the hooked implementation",
+    design="§2 C12"),
+ "C13": dict(
+    text="Full. Theorems C13_fifo (the consumer's output is always the prefix, in atomic-exchange order, of what was pushed), C13_no_missed_wakeup (consumer parked with an entry queued implies notification pending or the oldest entry's producer has still to write it), C13_all_delivered (at quiescence everything pushed has been popped exactly once, in order) for ANY number of producers, pushes and EVERY interleaving, by invariant induction; C13_old_order_refuted for the snapshot's look-then-drain order. Tied to /repo by replaying all interleavings of 2x1 and 1x2 pushes with the consumer (and seeded larger ones) on the real PollableQueue through yield points.",
+    note="Closed under the global context. Entries are indexed in exchange order (the next pointer of entry k-1 is the linked flag of entry k); sequentially consistent memory; consumer woken only when the eventfd is readable. Trusted: harness/h_queue.cc, pv_sched.h, hook placement in mailbox.h.",
+    technique="Coq proof (invariant over a small-step interleaving semantics, unbounded producers/pushes/schedules) + exhaustive small-configuration schedule replay on the hooked implementation",
+    design="§2 C13"),
  "C10": dict(
     text="Partial. Theorems C10_find_sound (whatever the backtracking search returns is a registered route whose pattern matches the path, parameters/wildcards bound to the prescribed segments in path order), C10_find_complete (if any registered route matches, a route is found: 404/405 only when none matches), C10_status (exactly one of handler / 405 with other matching methods / not found), for every table and path. The choice among several matching routes (precedence fixed>param>optional>wildcard) is decided by an independent Python oracle on the implementation's answers and by the model/implementation correspondence through a live Rest::Router endpoint, not yet by a theorem.",
     note="Closed under the global context. The trie is modelled as the set of (remaining pattern, handler) entries with child maps as derivatives; tables in the correspondence keep one parameter/optional name per tree position (the C++ iterates same-kind children in hash order; see DESIGN.md F2). Trusted: harness/h_router.cc (live endpoint + raw socket), Python spec oracle.",
@@ -79,7 +89,7 @@ def main():
     }
     json.dump(m, open(os.path.join(ROOT, "MANIFEST.json"), "w"), indent=1)
 
-HOOK_COMMITS = []
+HOOK_COMMITS = ["1494318", "2d5a8aa"]
 
 if __name__ == "__main__":
     main()
